@@ -185,7 +185,16 @@ class Gen:
                 op = ['eq', other, r.choice(['path', 'path', 't', 'ne', 'ne-t', 'other-type'])]
             elif k < 0.96:
                 op = ['concat', ['T'] + other[1:]]
-                ops[0] = 'T'     # Path(p, q) accepts Path arguments rooted at T only
+                if r.random() < 0.5:
+                    # the first part given as the T / S / A expression itself (any root, also the bare root with no steps)
+                    op.append('t')
+                    ops[0] = r.choice(['T', 'S', 'S', 'A'])
+                    if r.random() < 0.4:
+                        del ops[1:]
+                    if ops[0] == 'A' and any(c in ('x', 'X') for c in (ops[1::2] + op[1][1::2])):
+                        ops[0] = 'S'                 # wildcards are refused on an A (assignment) path
+                else:
+                    ops[0] = 'T'     # Path(p, q) accepts Path OBJECTS rooted at T only
             else:
                 op = ['stars']
         return {'kind': 'seq', 'ops': ops, 'op': op}
@@ -193,7 +202,7 @@ class Gen:
 
 def generate(rng, tier):
     g = Gen(rng)
-    cases = []
+    cases = [{'kind': 'dunder', 'i': i} for i in range(len(dunder_scenarios()))]
     nr, ns = (700, 900) if tier == 'quick' else (6000, 6000)
     for _ in range(nr):
         cases.append(g.repr_case())
@@ -372,7 +381,41 @@ def seq_key(x):
     return x
 
 
+def dunder_scenarios():
+    """steps that name dunder attributes are recorded with T.__('name__') (T reserves T.__name__ itself): repr spells them that way,
+    so that it evaluates back (F41); outside the print / read model, whose attribute names do not begin with two underscores"""
+    import glom
+    T, S, Path = glom.T, glom.S, glom.Path
+    return [T.__('class__'), T.__('class__').__('name__'), T.a.__('b__')['c'], S.__('x__'), S.v.__('len__')(), T[T.__('k__')],
+            T(T.__('k__'), key=T.a.__('z__')), Path('a', T.__('len__')), Path(T.__('dict__'), 'k'), T.__star__().__('doc__')]
+
+
+def run_dunder(case):
+    import glom
+    import pickle
+    x = dunder_scenarios()[case['i']]
+    text = repr(x)
+    problems = []
+    try:
+        ev = eval(text, {'T': glom.T, 'S': glom.S, 'A': glom.A, 'Path': glom.Path, '__builtins__': builtins})
+        if type(ev) is not type(x) or texpr_ir(ops_of(ev)) != texpr_ir(ops_of(x)):
+            problems.append('eval(repr(x)) is not x: repr %r evaluates to %r' % (text, ev))
+        elif repr(ev) != text:
+            problems.append('repr(eval(repr(x))) differs: %r vs %r' % (repr(ev), text))
+    except Exception as e:
+        problems.append('eval(repr(x)) failed for %r: %s' % (text, type(e).__name__))
+    try:
+        pk = pickle.loads(pickle.dumps(x))
+        if texpr_ir(ops_of(pk)) != texpr_ir(ops_of(x)):
+            problems.append('pickle round trip changed %r' % text)
+    except Exception as e:
+        problems.append('pickle failed for %r: %s' % (text, type(e).__name__))
+    return {'problems': problems}
+
+
 def run_impl(case):
+    if case['kind'] == 'dunder':
+        return run_dunder(case)
     import glom
     if case['kind'] == 'repr':
         obj = build_obj(case)
@@ -415,7 +458,12 @@ def run_impl(case):
     t = glom.core.TType()
     root = {'T': glom.T, 'S': glom.S, 'A': glom.A}[ops[0]]
     t.__ops__ = (root,) + tuple(ops[1:])
-    p = glom.Path(t)
+    if len(ops) == 1:
+        t = root                                     # the bare root is the T / S / A object itself
+    try:
+        p = glom.Path(t)
+    except Exception as e:
+        return {'err': type(e).__name__}
     op = case['op']
 
     def mk(o):
@@ -453,7 +501,7 @@ def run_impl(case):
                 return {'bool': not (p != (o.path_t if form == 'ne-t' else o))}
             return {'bool': p == (o.path_t if form == 't' else o)}
         if op[0] == 'concat':
-            return {'list': [seq_key(x) for x in glom.Path(p, mk(op[1])).path_t.__ops__]}
+            return {'list': [seq_key(x) for x in glom.Path(p.path_t if form == 't' else p, mk(op[1])).path_t.__ops__]}
         if op[0] == 'stars':
             return {'z': p.path_t.__stars__()}
     except Exception as e:
@@ -545,6 +593,8 @@ def seqop_coq(op):
 
 
 def coq_case(case, out):
+    if case['kind'] == 'dunder':
+        return '(CSeq ["T"] OLen (RZ 0))'            # decided on the implementation side
     if 'harness_error' in out or 'harness_timeout' in out:
         return '(CSeq [] OLen (RErr "harness"))'
     if case['kind'] == 'repr':
@@ -566,6 +616,8 @@ def coq_case(case, out):
 
 
 def model_dump_term(case):
+    if case['kind'] == 'dunder':
+        return '0'
     if case['kind'] == 'repr':
         e = texpr_coq({'root': case['root'], 'steps': case['steps']})
         return 'repr_model %s %s' % (cbool(case['path']), e)
@@ -573,6 +625,8 @@ def model_dump_term(case):
 
 
 def direct_oracle(case, out):
+    if case['kind'] == 'dunder':
+        return '; '.join(out['problems']) if out.get('problems') else None
     if out.get('bad_arg') == 'accepted':
         return 'Path.startswith(<int>) did not raise TypeError'
     if 'other_type' in out and out['other_type'] != [False, True, False]:
@@ -594,6 +648,8 @@ def direct_oracle(case, out):
 
 
 def nontrivial(case, out):
+    if case['kind'] == 'dunder':
+        return True
     if case['kind'] == 'repr':
         kinds = set(c for c, _ in case['steps'])
         nested = any(isinstance(a, dict) and ('t' in a or 'tup' in a or 'slice' in a or 'call' in a) for _, a in case['steps'])
@@ -602,6 +658,8 @@ def nontrivial(case, out):
 
 
 def classify(case, out):
+    if case['kind'] == 'dunder':
+        return 'dunder'
     if case['kind'] == 'repr':
         return 'repr:%s:%s' % ('Path' if case['path'] else 'T', case['root'])
     return 'seq:%s:%s' % (case['op'][0], 'err' if 'err' in out else 'ok')
